@@ -53,8 +53,9 @@ def run(ctx):
     ctx.tlc("MC_Reconnect", coverage=True, timeout=1200)
     sysf = reconsim.systematic()
     if ctx.quick and len(sysf) > 1500:
-        head, rest = sysf[:8], sysf[8:-2]
-        sysf = head + rng.sample(rest, 1400) + sysf[-2:]
+        keep = [s_ for s_ in sysf[8:-2] if ("ev", "user_disconnect") in s_]
+        head, rest = sysf[:8], [s_ for s_ in sysf[8:-2] if ("ev", "user_disconnect") not in s_]
+        sysf = head + keep + rng.sample(rest, 1400 - len(keep)) + sysf[-2:]
     rnd = [reconsim.random_story(rng, rng.randrange(2, 14)) for _ in range(600 if ctx.quick else 20000)]
     # TLC-generated histories: one per distinct state of the manager (8 steps, 30 s), shortest first
     from vf.tlc import parse_tagged
